@@ -151,6 +151,9 @@ class SymSeq(SProto):
     def py_iter(self, I):
         raise OutOfSubset("iteration over a sequence of unknown length without a loop rule")
 
+    def make_iter(self, I):
+        return SymIter(self)
+
     def py_getattr(self, I, name):
         if name == "__class__":
             return SType(self.kind)
@@ -161,6 +164,26 @@ class SymSeq(SProto):
 
     def __repr__(self):
         return "SymSeq(%s#%d)" % (self.kind, self.token)
+
+
+class SymIter(SProto):
+    """iter(seq): an iterator over a sequence of unknown length with a symbolic position"""
+
+    def __init__(self, seq):
+        self.seq = seq
+        self.pos = z3.IntVal(0)
+
+    def pytype(self):
+        return "iterator"
+
+    def make_iter(self, I):
+        return self
+
+    def py_truth(self, I):
+        return True
+
+    def py_iter(self, I):
+        raise OutOfSubset("iteration over an iterator of unknown length without a loop invariant")
 
 
 def _arith(op, a, b):
